@@ -59,6 +59,10 @@ var wants = []want{
 	// diskpacked: inside delete(), is the header rewritten (first WriteAt) before the data is destroyed (first punchHole / CopyN)?
 	{"pkg/blobserver/diskpacked/dele.go", "callorder:WriteAt<punchHole", "delete", "dp_delete_header_before_punch"},
 	{"pkg/blobserver/diskpacked/dele.go", "callorder:WriteAt<CopyN", "delete", "dp_delete_header_before_zero"},
+	// enumerate handler: does the long-poll loop run while the deadline has not passed (condition uses time.Now().Before)?
+	{"pkg/blobserver/handlers/enumerate.go", "forcond:Before", "handleEnumerateBlobs", "enum_wait_loop_runs"},
+	// client: does the callback given to doStat inside StatBlobs leave the reporting to the helper (it does not call fn itself)?
+	{"pkg/client/upload.go", "nofncall:doStat", "StatBlobs", "client_stat_reports_once"},
 	// blobpacked: does RemoveBlobs hand the loose store every blob it was given (and not only those without a meta row)?
 	{"pkg/blobserver/blobpacked/blobpacked.go", "removeall:small", "RemoveBlobs", "bp_remove_loose_of_all"},
 	// every handler type registered anywhere under pkg/ (first argument of blobserver.RegisterHandlerConstructor)
@@ -407,6 +411,52 @@ func main() {
 				return true
 			})
 			fmt.Fprintf(&b, "Definition %s : bool := %v.\n", w.coqName, found)
+		case "forcond:Before":
+			fd, ok := fi.funcs[w.goName]
+			if !ok {
+				fail(fmt.Errorf("func not found"))
+			}
+			found := false
+			ast.Inspect(fd.Body, func(n ast.Node) bool {
+				if fs, ok := n.(*ast.ForStmt); ok && fs.Cond != nil {
+					ast.Inspect(fs.Cond, func(m ast.Node) bool {
+						if se, ok := m.(*ast.SelectorExpr); ok && se.Sel.Name == "Before" {
+							found = true
+						}
+						return true
+					})
+				}
+				return true
+			})
+			fmt.Fprintf(&b, "Definition %s : bool := %v.\n", w.coqName, found)
+		case "nofncall:doStat":
+			// the function is a method: find it by name among the file's declarations (methods are keyed by name too)
+			fd, ok := fi.funcs[w.goName]
+			if !ok {
+				fail(fmt.Errorf("func not found"))
+			}
+			callsFn, sawLit := false, false
+			ast.Inspect(fd.Body, func(n ast.Node) bool {
+				ce, ok := n.(*ast.CallExpr)
+				if !ok {
+					return true
+				}
+				if se, ok := ce.Fun.(*ast.SelectorExpr); ok && se.Sel.Name == "doStat" {
+					for _, a := range ce.Args {
+						if fl, ok := a.(*ast.FuncLit); ok {
+							sawLit = true
+							ast.Inspect(fl.Body, func(m ast.Node) bool {
+								if c2, ok := m.(*ast.CallExpr); ok && isIdent(c2.Fun, "fn") {
+									callsFn = true
+								}
+								return true
+							})
+						}
+					}
+				}
+				return true
+			})
+			fmt.Fprintf(&b, "Definition %s : bool := %v.\n", w.coqName, sawLit && !callsFn)
 		case "removeall:small":
 			// true iff the function calls <x>.small.RemoveBlobs(ctx, <its own second parameter>)
 			fd, ok := fi.funcs[w.goName]
